@@ -180,7 +180,7 @@ fn model_space(tier: Tier) -> Vec<ModelCfg> {
                                 cost,
                                 lr: *lr,
                                 salt,
-                                inputs: vec![vec![sz[0]], vec![2, sz[0]], vec![1, sz[0]], vec![3, sz[0]]],
+                                inputs: if depth == 1 { vec![vec![sz[0]], vec![2, sz[0]], vec![1, sz[0]], vec![3, sz[0]], vec![17, sz[0]], vec![40, sz[0]]] } else { vec![vec![sz[0]], vec![2, sz[0]], vec![1, sz[0]], vec![3, sz[0]]] },
                             });
                         }
                     }
@@ -198,7 +198,7 @@ fn model_space(tier: Tier) -> Vec<ModelCfg> {
             if cost == CostK::CrossEntropy && !matches!(acts_[acts_.len() - 1], Act::Sigmoid | Act::Softmax) {
                 continue;
             }
-            out.push(ModelCfg { layers: layers.clone(), cost, lr: 0.25, salt: 11, inputs: vec![vec![sizes[0]], vec![2, sizes[0]], vec![5, sizes[0]]] });
+            out.push(ModelCfg { layers: layers.clone(), cost, lr: 0.25, salt: 11, inputs: vec![vec![sizes[0]], vec![2, sizes[0]], vec![5, sizes[0]], vec![17, sizes[0]]] });
         }
     }
     // convolutional stacks
